@@ -653,3 +653,84 @@ def zip_alignment(ctx, rule, fis, minimum=1):
     if n < minimum:
         ctx.fail(f"{rule}: only {n} zip() calls over jointly unpacked lists found (minimum {minimum})")
     return n
+
+
+NON_INPLACE = {"drop", "rename", "fillna", "replace", "set_index", "reset_index", "sort_values", "sort_index", "astype", "dropna",
+               "drop_duplicates", "reindex", "append", "assign", "clip", "round", "where", "mask", "merge", "join"}
+
+
+def discarded_results(ctx, rule, fis, methods=("drop", "dropna", "drop_duplicates", "rename", "set_index", "reset_index", "reindex", "assign", "merge")):
+    """An expression statement `<frame>.<method>(...)` of a pandas method that returns a new object (no inplace=True) discards its
+    result: the statement is a no-op, the rows / columns it meant to remove or change are still there.  One obligation per function
+    that contains such calls to one of `methods` on a net table expression."""
+    import ast
+    from ppsa.astutil import norm
+    n = 0
+    for fi in fis:
+        bad = []
+        seen = 0
+        for st in ast.walk(fi.node):
+            if isinstance(st, ast.Expr) and isinstance(st.value, ast.Call) and isinstance(st.value.func, ast.Attribute) and st.value.func.attr in methods:
+                base = norm(st.value.func.value, 80)
+                if not ("net" in base or "[elm]" in base or "_df" in base or "table" in base):
+                    continue
+                seen += 1
+                inplace = any(k.arg == "inplace" and isinstance(k.value, ast.Constant) and k.value.value is True for k in st.value.keywords)
+                if not inplace:
+                    bad.append(st)
+        if seen or bad:
+            n += 1
+            ctx.ob(rule, f"{fi.module.name}::{fi.qualname}::discarded", not bad,
+                   "every table-modifying call is in place or assigned" if not bad else
+                   f"`{norm(bad[0], 80)}` returns a new table that is discarded: nothing is removed / changed", fi.loc(bad[0]) if bad else fi.loc())
+    return n
+
+
+def class_level_mutables(ctx, rule, modules):
+    """A mutable literal bound at class level ([] / {} / set() / dict() / list()) that methods mutate through self.<attr> (append, extend,
+    insert, update, add, item assignment) without __init__ binding a fresh object is shared by all instances."""
+    import ast
+    n = 0
+    MUT = ("append", "extend", "insert", "update", "add", "setdefault", "pop", "remove", "clear")
+    for mn in modules:
+        mod = ctx.repo.module(mn)
+        for cls in [c for c in ast.walk(mod.tree) if isinstance(c, ast.ClassDef)]:
+            attrs = {}
+            for st in cls.body:
+                tg = None
+                if isinstance(st, ast.Assign) and len(st.targets) == 1 and isinstance(st.targets[0], ast.Name):
+                    tg, v = st.targets[0].id, st.value
+                elif isinstance(st, ast.AnnAssign) and isinstance(st.target, ast.Name) and st.value is not None:
+                    tg, v = st.target.id, st.value
+                if tg and (isinstance(v, (ast.List, ast.Dict, ast.Set)) or (isinstance(v, ast.Call) and isinstance(v.func, ast.Name) and v.func.id in ("list", "dict", "set", "defaultdict"))):
+                    attrs[tg] = st
+            if not attrs:
+                continue
+            init_binds = set()
+            mutated = {}
+            for fn in [f for f in cls.body if isinstance(f, ast.FunctionDef)]:
+                if fn.name == "__init__":
+                    for x in fn.body:     # unconditional bindings only: a binding under an if leaves the class object on the other path
+                        if isinstance(x, (ast.Assign, ast.AnnAssign)):
+                            for t in (x.targets if isinstance(x, ast.Assign) else [x.target]):
+                                if isinstance(t, ast.Attribute) and isinstance(t.value, ast.Name) and t.value.id == "self":
+                                    init_binds.add(t.attr)
+                for x in ast.walk(fn):
+                    if isinstance(x, ast.Call) and isinstance(x.func, ast.Attribute) and x.func.attr in MUT and isinstance(x.func.value, ast.Attribute) \
+                            and isinstance(x.func.value.value, ast.Name) and x.func.value.value.id == "self" and x.func.value.attr in attrs:
+                        mutated.setdefault(x.func.value.attr, x)
+                    if isinstance(x, (ast.Assign, ast.AugAssign)):
+                        for t in (x.targets if isinstance(x, ast.Assign) else [x.target]):
+                            if isinstance(t, ast.Subscript) and isinstance(t.value, ast.Attribute) and isinstance(t.value.value, ast.Name) \
+                                    and t.value.value.id == "self" and t.value.attr in attrs:
+                                mutated.setdefault(t.value.attr, x)
+            for a, st in attrs.items():
+                n += 1
+                bad = a in mutated and a not in init_binds
+                ctx.ob(rule, f"{mn}::{cls.name}::{a}", not bad,
+                       f"class attribute {a}: " + ("re-bound per instance in __init__" if a in init_binds else "never mutated through self"),
+                       f"{mod.relpath}:{st.lineno}") if not bad else \
+                    ctx.ob(rule, f"{mn}::{cls.name}::{a}", False,
+                           f"{cls.name}.{a} is a mutable class attribute that methods mutate through self.{a} and __init__ does not re-bind: all "
+                           "instances share one object, what one instance registers is seen by every other", f"{mod.relpath}:{st.lineno}")
+    return n
